@@ -9,6 +9,15 @@ from harness.replay_model import ModelDriver, norm_expected, diff_obs, canon, so
 from harness.replay_graph import build_model
 
 
+def typed_repr(o):
+    """nested structure with the TYPES of keys and scalars made explicit ({'0': 1} and {0: 1} differ)"""
+    if isinstance(o, dict):
+        return {'dict': sorted([[type(k).__name__, str(k), typed_repr(v)] for k, v in o.items()], key=lambda x: (x[0], x[1]))}
+    if isinstance(o, (list, tuple)):
+        return {'list': [typed_repr(x) for x in o]}
+    return [type(o).__name__, str(o)]
+
+
 def pairs(xs):
     return sorted([list(p) for p in xs])
 
@@ -141,7 +150,11 @@ class GraphDriver:
                 if w == 'tags':
                     n.tags.append('touched')
                 elif w == 'extras':
-                    n.extras['k'] = 7
+                    if 'm' not in n.extras:
+                        n.extras['k'] = 7
+                        n.extras['m'] = {'0': []}          # a nested container under a digit-only string key
+                    else:
+                        n.extras['m']['0'].append(len(n.extras['m']['0']))      # mutated in place
                 elif w == 'ttc':
                     if isinstance(n.ttc, dict):
                         n.ttc['touched'] = 7
@@ -206,7 +219,7 @@ class GraphDriver:
                 'is_viable': bool(n.is_viable), 'is_necessary': bool(n.is_necessary),
                 'mitre_info': None if n.mitre_info is None else str(n.mitre_info),
                 'tags': [str(t) for t in n.tags] if isinstance(n.tags, (list, tuple)) else repr(n.tags),
-                'extras': json.loads(json.dumps(n.extras, default=str)),
+                'extras': typed_repr(n.extras),
                 'children': sorted({int(c.id) for c in n.children}), 'parents': sorted({int(p.id) for p in n.parents}),
                 'compromised_by': sorted(int(a.id) for a in n.compromised_by)}
         atk = {}
@@ -289,7 +302,7 @@ class GraphDriver:
             nodes.append({'h': self.hof(n), 'asset': self.mdrv.hof(n.asset) if n.asset is not None else 0,
                           'step': n.name, 'kind': n.type, 'V': bool(n.is_viable), 'N': bool(n.is_necessary),
                           'tags': sorted(set(n.tags)) if isinstance(n.tags, list) else ['<not a list>'],
-                          'extras': int(ex.get('k', 0)),
+                          'extras': (int(ex.get('k', 0)) + len(ex['m'].get('0', [])) if isinstance(ex.get('m'), dict) and isinstance(ex['m'].get('0', []), list) else int(ex.get('k', 0))),
                           'ttc': 7 if isinstance(n.ttc, dict) and 'touched' in n.ttc else 0})
             for c in n.children:
                 ch.append([self.hof(n), self.hof(c)])
@@ -469,11 +482,41 @@ class Adapter:
                 res['div'].append(self.div(case, k, act, comp, detail, feats))
                 break
             prev_g = exp
+        if res['div'] and res['div'][-1].get('kind') == 'divergence' and res['div'][-1].get('step') is not None:
+            self.degraded(case, res['div'][-1]['step'], gd, res)
         if gsteps >= 2:
             res['nontrivial'] = json.dumps(acts, sort_keys=True)[:4000]
         res['features'] = sorted(set(res['features']))
         res['sample'] = {'lang': lang if isinstance(lang, str) else lang.get('id'), 'acts': acts[:10]}
         return res
+
+    def degraded(self, case, k0, gd, res):
+        """After the first divergence the expected observations no longer apply, but SaveLoad and DeepCopy are stutters
+        on WHATEVER the graph is: the rest of the behaviour is still applied and those two actions are judged against
+        the actual state before them (round trip / copy equal and independent)."""
+        for k in range(k0 + 1, len(case['hist'])):
+            if case['hist'][k]['k'] == 'm':
+                break                                   # a model-level step: nothing to continue with
+            act = case['hist'][k]['act']
+            g = act.get('g', 'main')
+            if act['op'] in ('SaveLoad', 'DeepCopy') and gd.graphs.get(g if act['op'] == 'SaveLoad' else 'main') is None:
+                break
+            gd.extra = []
+            try:
+                got = gd.apply(act, case['hist'][k]['obs'])
+            except Exception:
+                break
+            if act['op'] in ('SaveLoad', 'DeepCopy'):
+                feats = features_g(act, None) + ['after_earlier_divergence']
+                if got != 'ok':
+                    res['div'].append(self.div(case, k, act, 'outcome', {'got': got, 'want': 'ok', 'exception': getattr(gd, 'last_exc', None),
+                                                                         'note': 'judged against the actual state (an earlier step had already diverged)'}, feats))
+                    break
+                if gd.extra:
+                    res['div'].append(self.div(case, k, act, gd.extra[0][0], gd.extra[0][1], feats))
+                    break
+            elif got != act.get('res', 'ok'):
+                break
 
     def div(self, case, k, act, comp, detail, feats):
         return {'kind': 'divergence', 'step': k, 'action': act['op'], 'component': comp,
